@@ -185,6 +185,18 @@ fn text_corpus(tier: Tier) -> Vec<Vec<u8>> {
             out.push(refmodel::text::print(v).into_bytes());
         }
     }
+    // every D2 text and a few header-like scalars followed by each kind of trailing white space, and in
+    // the CRLF / TAB spelling (valid JSON text stays text whatever white space surrounds its tokens)
+    for v in univ::d2().iter().step_by(if tier.thorough() { 1 } else { 3 }) {
+        if v.all_finite() {
+            out.push(refmodel::text::print_styled(v, 3).into_bytes());
+        }
+    }
+    for base in ["12345678", "\"2024-01-01\"", "\"abcDefgh\"", "[1, 2, 3]", "true", "-1234567", "{\"a\":1}", "1.5e300", "null"] {
+        for tail in ["\r\n", "\r", "\n", "\t", " ", "\n\n", " \r\n ", "\t\t"] {
+            out.push(format!("{}{}", base, tail).into_bytes());
+        }
+    }
     // digit strings of 7, 8, 9, 12 characters
     let digs: &[u8] = if tier.thorough() { b"0123456789" } else { b"1259" };
     for len in [7usize, 8, 9, 12] {
